@@ -2,7 +2,7 @@
     [lattice_ok] for any cell type, and the check itself evaluated once for the reference quad cell
     ([quad_ref]; Properties/C15.v shows that the tabulated QuadCell of the run is this table). *)
 From Coq Require Import List Bool Arith ZArith QArith Qabs Lia Lqa.
-From CB Require Import Model.C15_Smooth Proofs.C15_Smooth Proofs.C15_SmoothGraph Proofs.C15_Fast.
+From CB Require Import Model.C15_Smooth Proofs.C15_Smooth Proofs.C15_SmoothGraph Proofs.C15_Fast Proofs.C15_Converge.
 Import ListNotations.
 Close Scope Q_scope.
 Open Scope nat_scope.
@@ -47,6 +47,42 @@ Proof.
         exfalso. apply Hi. apply schedule_fst_spec. repeat split; auto.
       * rewrite !nth_overflow; [reflexivity|lia|lia].
     + apply all_reach_sound. exact Hreach.
+Qed.
+
+(** a regular border yields the regular lattice: from any interior positions the sweeps converge to it *)
+Definition lattice_converges_concl (ct : celltype) (nx ny : nat) : Prop :=
+  let cells := struct_cells nx ny in
+  let n := struct_n nx ny in
+  forall o a b s, length s = n ->
+    (forall k, k < n -> border nx ny k = true -> (nth k s 0 == nth k (lattice nx ny o a b) 0)%Q) ->
+    forall eps, (0 < eps)%Q -> exists K, forall k, K <= k ->
+      within eps (iterate k (schedule ct cells n []) s) (lattice nx ny o a b).
+
+Theorem lattice_converges ct nx ny : lattice_ok ct nx ny = true -> lattice_converges_concl ct nx ny.
+Proof.
+  intro OK. unfold lattice_converges_concl. cbv zeta.
+  set (cells := struct_cells nx ny). set (n := struct_n nx ny).
+  pose proof OK as OK0. unfold lattice_ok, lattice_ok_sch in OK0. fold cells n in OK0.
+  apply andb_true_iff in OK0. destruct OK0 as [OK0 Hreach].
+  apply andb_true_iff in OK0. destruct OK0 as [OK0 _].
+  apply andb_true_iff in OK0. destruct OK0 as [OK0 Hbd].
+  apply andb_true_iff in OK0. destruct OK0 as [Hwf _].
+  rewrite forallb_forall in Hbd.
+  assert (Hbd' : forall k, k < n -> is_boundary ct cells k = border nx ny k).
+  { intros k Hk. apply eqb_prop. apply (Hbd k). apply in_seq. lia. }
+  intros o a b s Ls Hb eps He.
+  assert (Ll : length (lattice nx ny o a b) = n) by (unfold lattice; rewrite map_length, seq_length; reflexivity).
+  apply convergence; auto.
+  - congruence.
+  - rewrite Ls. apply wf_schedb_sound. exact Hwf.
+  - apply schedule_NoDup.
+  - intros jn Hin. apply (lattice_harmonic ct nx ny OK []). exact Hin.
+  - intros i Hi. destruct (Nat.lt_ge_cases i n) as [Hlt|Hge].
+    + apply Hb; [exact Hlt|]. rewrite <- (Hbd' i Hlt).
+      destruct (is_boundary ct cells i) eqn:E; [reflexivity|].
+      exfalso. apply Hi. apply schedule_fst_spec. repeat split; auto.
+    + rewrite !nth_overflow; [reflexivity|lia|lia].
+  - apply all_reach_sound. exact Hreach.
 Qed.
 
 (** the same check with the schedule computed the efficient way *)
